@@ -98,3 +98,12 @@ pub fn token_shift_line(token: &mut crate::nodes::Token, amount: isize) {
 pub fn convert_luau_number_step(number: &mut crate::nodes::NumberExpression, code: &str) {
     crate::rules::verif_convert_luau_number(number, code)
 }
+
+/// `compute_expression`'s per-node decision (`Computer::replace_with`).
+pub fn compute_expression_replace_with(
+    expression: &crate::nodes::Expression,
+) -> Option<crate::nodes::Expression> {
+    crate::rules::verif_compute_expression::replace_with(expression)
+}
+
+pub use crate::rules::verif_compute_expression::process_expression_stub as compute_expression_process_expression_stub;
